@@ -181,6 +181,11 @@ def run_config(unit):
             ("unserialisable-arg", ValueError, (targets.Unserialisable(),), {}),
             ("unknown-class", targets.CustomError, ("custom", 5), {"extra": 1}),
         ]
+        # content whose serialisation fails with errors of other kinds (any serializer hook / __getstate__ is user code)
+        for xc in (AttributeError, KeyError, RuntimeError, ZeroDivisionError, LookupError, AssertionError):
+            special.append(("unserialisable-attribute-%s" % xc.__name__, ValueError, ("bad",), {"thing": targets.unserialisable_with(xc)}))
+        special.append(("unserialisable-attribute-halfbuilt", ValueError, ("bad",), {"thing": targets.HalfBuilt()}))
+        special.append(("unserialisable-arg-RuntimeError", ValueError, (targets.unserialisable_with(RuntimeError),), {}))
         for label, cls, args, attrs in special:
             targets.Raiser.table = {"sp": (cls, args, attrs)}
             for kind in KINDS:
